@@ -1179,8 +1179,81 @@ def all_cases(seed, tier, full):
     cases = []
     for name, gen in GENERATORS.items():
         cases.extend(gen(rng, tier, full))
-    cases.extend(random_cases(rng, 400 if not full else 6000))
+    cases.extend(random_cases(rng, 400 if not full else 30000))
     return cases
+
+
+def random_runs(seed, tier, stats=None):
+    """`proposed_position` along runs of real chains with the real generator (seeded): every
+    family, 1..3 parameters, an accept/reject history that keeps adaptive scales moving.
+    Each proposed point is judged by the same oracle.  Returns findings [(key, text, payload)]."""
+    stats = stats if stats is not None else {}
+    rng = random.Random(seed * 7919 + 3)
+    nsteps = 150 if tier == 'quick' else 2000
+    findings = {}
+    nprop = 0
+    for fam, g in GROUP_OF.items():
+        if g == 'birth':
+            continue
+        _, kind, nmin, nmax = F.FAMILIES[fam]
+        for n in range(nmin, nmax + 1):
+            for pattern in (('AR',) if tier == 'quick' else ('AR', 'AAR', 'ARR')):
+                spec = dict(family=fam, n=n)
+                if g in ('bn', 'be'):
+                    spec['bounds'] = [list(ADAPT_BOXES[(n + j) % 3]) for j in range(n)]
+                if g == 'bd':
+                    spec['bounds'] = [list(INT_BOXES[(n + j) % 3]) for j in range(n)]
+                if g in ('bd', 'nd'):
+                    spec['successive'] = [rng.random() < 0.5 for _ in range(n)]
+                if g == 'sa':
+                    spec.update(kappa=rng.choice([1.0, 10.0, 100.0]), radec=rng.random() < 0.5, degs=rng.random() < 0.5)
+                adaptive = fam in F.ADAPTIVE
+                if adaptive:
+                    spec['adapt'] = dict(pattern=pattern, steps=0, window=nsteps + 10, seed=rng.randrange(1, 10 ** 6))
+                elif g in ('bn', 'ang'):
+                    spec['std'] = [0.3 * ((b[1] - b[0]) if g == 'bn' else 1.0) for b in (spec.get('bounds') or [[0, 1]] * n)]
+                elif g in ('bd', 'nd'):
+                    spec['std'] = [rng.choice([0.7, 1.5, 3.0]) for _ in range(n)]
+                elif g == 'be':
+                    spec['cov'] = _cov(n, 0.1, [tuple(b) for b in spec['bounds']], rng)
+                try:
+                    prop = build(spec)
+                    names = list(prop.parameters)
+                    ch = Chain(names, forcing.ForcedModel(pattern), [prop], bit_generator=rng.randrange(1, 10 ** 6))
+                    ch.start_position = mid_start(spec, prop)
+                except Exception as e:      # noqa: BLE001
+                    stats.setdefault('_skipped_reasons', {}).setdefault('random run %s: %r' % (fam, e), 0)
+                    continue
+                dummy = Script()
+                for it in range(nsteps):
+                    cur = {p: ch.current_position[p] for p in names}
+                    cur = {p: (int(v) if g in ('bd', 'nd') else float(v)) for p, v in cur.items()}
+                    try:
+                        if g == 'sa':
+                            with sa_numpy_log() as npl:
+                                ch.step()
+                            npl = npl[:len(SA_CALLS)]
+                        else:
+                            npl = []
+                            ch.step()
+                    except Exception as e:      # noqa: BLE001  (e.g. 'NaN acceptance!': other properties)
+                        stats.setdefault('_skipped_reasons', {}).setdefault('random run %s stopped: %r' % (fam, e), 0)
+                        break
+                    nprop += 1
+                    res = {'kind': 'ok', 'out': dict(ch.proposed_position), 'script': dummy, 'np': npl, 'exc': None}
+                    fl = judge(spec, prop, cur, res)
+                    for key, text in fl:
+                        stats.setdefault('_finding_counts', {}).setdefault(key, 0)
+                        stats['_finding_counts'][key] += 1
+                        if key not in findings:
+                            findings[key] = (key, 'along a random run (step %d, history %s): %s' % (it, pattern, text), {
+                                'suite': 'random-run', 'spec': spec, 'step': it, 'from': cur,
+                                'observed': repr(res['out']),
+                                'how_to_replay': 'domain.random_runs(seed=%d, tier=%r) reproduces it' % (seed, tier)})
+                    if fl:
+                        break
+    stats['_random_run_proposals'] = nprop
+    return list(findings.values())
 
 
 def replay_case(c):
